@@ -65,7 +65,9 @@ class LookupTable(LookupTableBase):
     @property
     @cached
     def range(self) -> Tuple:
-        return self(self.domain[0]), self(self.domain[1])
+        # The table may be decreasing: order the values at the two ends of the domain
+        y_0, y_1 = self(self.domain[0]), self(self.domain[1])
+        return min(y_0, y_1), max(y_0, y_1)
 
     @property
     def inputs(self) -> List[ca.MX]:
